@@ -194,7 +194,8 @@ Eval(e, env, st, cx) ==
                ELSE IF e.k \in {"Sqrt", "Cbrt", "Hypot"} /\ (cx.fam = "real" \/ \E i \in 1..Len(r.v) : r.v[i].k = "fin" /\ ~IsDyadic(r.v[i]))
                     THEN Er("OutOfDomain", r.st)
                ELSE LET x == ExactOne(OpName[e.k], r.v, IF cx.fam = "real" THEN "RNE" ELSE cx.rm, GridFor(cx))
-                    IN  MRound(cx, x.v, r.st)
+                    IN  IF x.irr /\ BigCtx(cx) THEN Er("OutOfDomain", r.st)     \* an irrational result under a wide format
+                        ELSE MRound(cx, x.v, r.st)
       [] e.k = "NearbyInt" ->
            LET r == Eval(e.a[1], env, st, cx)
            IN  IF r.err # "" THEN r ELSE IF ~IsNum(r.v) THEN Er("TypeError", r.st)
@@ -340,6 +341,7 @@ Eval(e, env, st, cx) ==
            LET r  == EvalArgs(e.a, 1, env, st, RealCtx, <<>>)
                kr == IF r.err # "" THEN r ELSE EvalArgs(e.kwv, 1, env, r.st, RealCtx, <<>>)
            IN  IF r.err # "" THEN r ELSE IF kr.err # "" THEN kr
+               ELSE IF \E i \in 1..Len(r.v) : r.v[i].k = "big" THEN Er("OutOfDomain", kr.st)
                ELSE IF \E i \in 1..Len(r.v) : IsNum(r.v[i]) /\ ~IsIntV(r.v[i]) THEN Er("ValueError", kr.st)
                ELSE LET kw == [n \in {e.kwn[i] : i \in 1..Len(e.kwn)} |-> kr.v[CHOOSE i \in 1..Len(e.kwn) : e.kwn[i] = n]]
                         c  == MkCtx(e.cls, r.v, kw)
@@ -376,6 +378,7 @@ Load(v, st) ==         \* v: exported value; returns [v, st]
         IN  [v |-> Tup(r.v), st |-> r.st]
     ELSE IF v.k = "bool" THEN [v |-> B(v.b), st |-> st]
     ELSE IF v.k = "ctx" THEN [v |-> CtxV(v.c), st |-> st]
+    ELSE IF v.k = "big" THEN [v |-> v, st |-> st]       \* a number too wide for TLC: an opaque token that may only travel
     ELSE [v |-> Canon(v), st |-> st]
 
 \* result as a store-free value (what crosses back to Python)
